@@ -890,11 +890,11 @@ theorem finv_crash (s s' : State) (h : FInv s) (hs : step s .crash = some s') : 
 /-- deleting a pending WAL file changes nothing but `files.wals` and `pending` -/
 theorem destroyOne_same {s s' : State} (hs : destroyOne s = some s') :
     s'.db = s.db ∧ s'.wal = s.wal ∧ s'.latest = s.latest ∧ s'.ckpts = s.ckpts ∧ s'.done = s.done ∧
-    s'.tasks = s.tasks ∧ s'.used = s.used := by
+    s'.tasks = s.tasks ∧ s'.used = s.used ∧ s'.replaying = s.replaying := by
   unfold destroyOne at hs
   split at hs
   · cases hs
-  · simp only [Option.some.injEq] at hs; subst hs; exact ⟨rfl, rfl, rfl, rfl, rfl, rfl, rfl⟩
+  · simp only [Option.some.injEq] at hs; subst hs; exact ⟨rfl, rfl, rfl, rfl, rfl, rfl, rfl, rfl⟩
 
 theorem finv_saveList_step (s s' : State) (h : FInv s) (hs : step s .saveList = some s') : FInv s' := by
   simp only [step] at hs
@@ -946,6 +946,32 @@ theorem finv_orphan_step (s s' : State) (id : Nat) (run : Run) (h : FInv s)
         obtain ⟨a, b⟩ := h.dn c hc hd
         exact ⟨walOk_files (f := s.files) rfl a, docOk_files (f := s.files) rfl b⟩
 
+theorem finv_openBegin_step (s s' : State) (id : Nat) (hs : step s (.openBegin id) = some s') : FInv s' := by
+  simp only [step] at hs
+  split at hs
+  · cases hs
+  · rename_i c hc
+    split at hs
+    · cases hs
+    · simp only [Option.some.injEq] at hs
+      subst hs
+      exact finv_frame (s := restoreBase s.files c) ⟨rfl, rfl, rfl, rfl, rfl, rfl, rfl, rfl, rfl⟩ (finv_restoreBase hc)
+
+theorem finv_replayOne_step (s s' : State) (rot : Bool) (h : FInv s)
+    (hs : step s (.replayOne rot) = some s') : FInv s' := by
+  simp only [step] at hs
+  split at hs
+  · cases hs
+  · split at hs
+    · cases hs
+    · split at hs
+      · cases hs
+      · rename_i s1 h1
+        simp only [Option.some.injEq] at hs
+        subst hs
+        have fr := writeStep_frame h1
+        exact finv_frame (s := s) ⟨fr.files, fr.ckpts, fr.pending, fr.tasks, fr.done, fr.used, fr.levels, fr.nextId, fr.walId⟩ h
+
 theorem finv_step (s s' : State) (a : Act) (h : FInv s) (hs : step s a = some s') : FInv s' :=
   match a, hs with
   | .write del k v rot, hs => finv_write s s' del k v rot h hs
@@ -961,6 +987,8 @@ theorem finv_step (s s' : State) (a : Act) (h : FInv s) (hs : step s a = some s'
   | .orphan id run, hs => finv_orphan_step s s' id run h hs
   | .crash, hs => finv_crash s s' h hs
   | .open id rots, hs => finv_open s s' id rots hs
+  | .openBegin id, hs => finv_openBegin_step s s' id hs
+  | .replayOne rot, hs => finv_replayOne_step s s' rot h hs
 
 theorem finv_run (s s' : State) (as : List Act) (h : FInv s) (hr : run s as = some s') : FInv s' := by
   induction as generalizing s with
